@@ -46,13 +46,13 @@ var F32 = Sort{K: SFP, EB: 8, SB: 24}
 var ArrSort = Sort{K: SArr}
 
 type Term struct {
-	id    int
-	sort  Sort
-	op    string // "const", "var", or SMT operator (possibly indexed, e.g. "(_ extract 7 0)")
-	args  []*Term
-	cv    *big.Int // BV const (unsigned repr) or bool const (0/1)
-	name  string   // for var
-	hasFP bool
+	id             int
+	sort           Sort
+	op             string // "const", "var", or SMT operator (possibly indexed, e.g. "(_ extract 7 0)")
+	args           []*Term
+	cv             *big.Int // BV const (unsigned repr) or bool const (0/1)
+	name           string   // for var
+	hasFP          bool
 	minVar, maxVar int // smallest / largest variable number occurring in the term (0: none)
 }
 
